@@ -681,8 +681,12 @@ fn run_mixed(focus: &'static str, seed: u64, index: u64, clean: bool) -> CaseOut
                     let other = rng.range(1, cfg.keys);
                     let value = client.token(other);
                     let op = if rng.chance(1, 2) { WriteOp::PutW { key: other, value, weight: if cfg.clean_weights { key_weight(other) } else { rng.range(25, 60) as i64 } } } else { WriteOp::Delete { key: other } };
+                    let (clk_call, call) = (client.clk(), rt::stamp());
                     let cell = std::cell::RefCell::new(&mut client);
-                    let _ = cache.map_get(&key, |stored| { let mut c = cell.borrow_mut(); c.write(&cache, op.clone()); c.settle_all(&marks); REENTRANT_AWAITS.fetch_add(1, Ordering::Relaxed); stored });
+                    let got = cache.map_get(&key, |stored| { let mut c = cell.borrow_mut(); c.write(&cache, op.clone()); c.settle_all(&marks); REENTRANT_AWAITS.fetch_add(1, Ordering::Relaxed); stored });
+                    // the outer map_get is a read like any other (it is counted as a lookup and judged with the other reads)
+                    let (ret, clk_done) = (rt::stamp(), client.clk());
+                    client.log.push(OpRec { thread: client.id, call, ret, clk_call, clk_done, outcome: Outcome::Read { key, variant: 2, got } });
                 } else if rng.chance(45, 100) {
                     let variant = rng.below(7) as usize;
                     client.read(&cache, key, variant);
